@@ -4,7 +4,7 @@ import z3
 
 from .base import (
     V, Unsupported, fresh, vref, vint, vbool, vstr, VNONE, NONE, TRUE, FALSE, I, B, SeqI,
-    TY, T_LIST, T_TUPLE, T_DICT, T_SET, T_STR, ISINST, clsref, strref, IDOF,
+    TY, T_LIST, T_TUPLE, T_DICT, T_SET, T_STR, ISINST, clsref, strref, IDOF, Marker,
 )
 from .symex import Raise, dotted
 
@@ -139,6 +139,9 @@ class CallMixin:
             src = st.get("dord" if o.py == "dict_keys" else "list", o.t)
             return [(st, self.new_list(st, src))]
         raise Unsupported("list(%r)" % (o,))
+
+    def b_enumerate(self, ex, st, node, args, kwargs):
+        return [(st, V("static", None, Marker("enumerate", args[0])))]
 
     def b_callable(self, ex, st, node, args, kwargs):
         raise Unsupported("callable()")
@@ -353,4 +356,4 @@ class CallMixin:
         raise Unsupported("any() of a non-generator")
 
     def e_GeneratorExp(self, st, node):
-        return [(st, V("static", None, ("genexp", node)))]
+        return [(st, V("static", None, Marker("genexp", node)))]
